@@ -201,6 +201,7 @@ def main():
         except ImportError:
             kanirun = None
         bounded = []
+        timed_out = []
         if kani_harnesses:
             kres = kanirun.run(REPO, kani_harnesses, os.path.join(workroot, 'kani'), a.tier, seed)
             ev['kani'] = kres['summary']
@@ -221,7 +222,12 @@ def main():
                     violations.append({'backend': 'kani', 'obligation': 'kani::' + h['name'], 'failures': h.get('failures', []),
                                        'counterexample': h.get('counterexample'), 'native': h.get('native')})
                 elif h['status'] == 'undecided':
-                    undecided_all['kani::' + h['name']] = [{'kind': h.get('reason', 'undecided'), 'message': h.get('detail', '')[:500]}]
+                    hreg = kanirun.HREG.H.get(h['name'], {})
+                    if a.tier == 'thorough' and hreg.get('tier') == 'thorough' and h.get('reason') in ('timeout', 'no result in output'):
+                        # a thorough-only obligation that ran out of its time budget explored nothing: reported, not a verdict
+                        timed_out.append({'harness': h['name'], 'reason': h.get('reason'), 'budget_s': hreg.get('timeout_s')})
+                    else:
+                        undecided_all['kani::' + h['name']] = [{'kind': h.get('reason', 'undecided'), 'message': h.get('detail', '')[:500]}]
                 if h.get('sample'):
                     samples.append(h['sample'])
             trusted += kres.get('trusted', [])
@@ -280,7 +286,7 @@ def main():
         cov = {'obligations': obligations, 'discharged': discharged,
                'checker_cmd': '; '.join(x for x in [ev.get('verus', {}).get('cmd'), (ev.get('kani') or {}).get('cmd')] if x) or 'none',
                'trusted_base': sorted(set(trusted)), 'samples': samples[:8], 'per_obligation': per_obl, 'bounded': bounded,
-               'undecided': sorted(undecided_all), 'known_findings': known_lines,
+               'undecided': sorted(undecided_all), 'known_findings': known_lines, 'thorough_only_timed_out': timed_out,
                'not_reached': claims.NOT_REACHED.get(prop, []),
                # generic counts (every obligation incl. bounded ones that was run / that was discharged)
                'evaluations': len(per_obl), 'distinct_nontrivial': len([o for o in per_obl if o['status'] == 'discharged']),
